@@ -16,14 +16,13 @@
    redraws of the same canvas object, clear() with arbitrary terminal contents and size changes.
    Partial display mode (no alternate buffer; display origin = terminal row 0, lines below blank, as many
    terminal rows as canvas rows): any history of draws, clear() and frames abandoned by a mid-draw SIGWINCH.
-   Zero-width (combining) characters and C0 control characters are covered except as the first character of
-   a run (a control character under a narrow encoding is one column wide and may be first).  NOT proved
-   (statement kept, oracle only): runs starting with a zero-column character / without columns; partial display with a display origin below row 0 and size changes in
+   Zero-width (combining) characters and C0 control characters are covered everywhere: draw_paints_any_text
+   (full-screen mode) for runs that start with a zero-column character or hold no column; partial display with a display origin below row 0 and size changes in
    partial display mode (oracle only). *)
 From Coq Require Import ZArith List Bool Lia ZifyBool.
 Import ListNotations.
 From Urwid Require Import PyBase TermRef DrawScreen HtmlGen PaintSpec TermRefFacts DrawScreenProofs DrawPartialProofs
-  DrawTextProofs HtmlGenProofs.
+  DrawTextProofs DrawAnyProofs HtmlGenProofs.
 Open Scope Z_scope.
 
 (* [spec_to_sgr] is Screen._attrspec_to_escape TRANSLATED from the source on every run
@@ -221,11 +220,29 @@ Print Assumptions row_cells_is_threaded.
        are painted as '?'; [run_cells] is defined on the text that is sent ([out_text]).  A run in the
        IBMPC charset "U" is sent untranslated and must not contain them. --- *)
 
-(* --- NOT PROVED (statement [draw_paints_any_text_full] in Model/PaintSpec.v, decided by the
-       correspondence and the oracle only): draw_paints for runs that START with a character taking no
-       column and for runs without columns.  Both refutation witnesses found so far (a zero-column run
-       before the last character, ca038f3; a zero-column LAST run, 95d7bbc) are repaired and kept in
-       corpus/C04 (06, 07, 08). --- *)
+(* --- ANY text.  [canvas_any]: rows of non-empty runs as wide as the screen whose characters satisfy
+       [chr_ok] - a run may START with a character taking no column (a combining character, a C0 control
+       character under UTF-8) and may hold no column at all.  The row spec [row_cells_threaded] attaches
+       every combining character to the last character painted before it, across run boundaries;
+       [SyncAny] / [PaintsAny] are [Sync] / [Paints] over that spec.  From any state in which Screen
+       object and terminal agree, one draw_screen paints the canvas and re-establishes the agreement -
+       row diff, EL shortcut, the bottom-right insert trick with its three early returns (ca038f3,
+       95d7bbc) included.  Both former refutation witnesses are now instances (corpus/C04 06-08). --- *)
+Theorem draw_paints_any_text : draw_paints_any_text_full.
+Proof. exact any_text_full_lemma. Qed.
+Print Assumptions draw_paints_any_text.
+
+(* every history of draws of any canvases from a fresh terminal paints its last canvas *)
+Theorem draws_paint_any : draws_paint_any_statement.
+Proof. exact draws_paint_any_lemma. Qed.
+Print Assumptions draws_paint_any.
+
+(* on the canvases of draw_paints (every run starts with a character taking a column) the threaded row spec
+   and the concatenation of the runs show the same thing *)
+Theorem row_shows_any_is_row_shows :
+  forall c cols row trow, row_ok c cols row -> (row_shows_any c row trow <-> row_shows c row trow).
+Proof. exact row_shows_any_iff. Qed.
+Print Assumptions row_shows_any_is_row_shows.
 
 (* --- non-vacuity --- *)
 Definition ex_cfg : cfg :=
@@ -335,4 +352,21 @@ Proof.
   unfold Sync, term_ok. cbn.
   repeat match goal with |- _ /\ _ => split end; try reflexivity; try discriminate; try lia;
     try (intros; congruence); repeat constructor.
+Qed.
+
+(* any text: the two former refutation witnesses are instances of [canvas_any] and are painted correctly *)
+Example ex_any_text :
+  canvas_any ex_cfg 2 1 [[(0, 0, [(89, 1)]); (1, 0, [(769, 0)]); (0, 0, [(32, 1)])]] /\
+  canvas_any ex_cfg 2 1 [[(0, 0, [(97, 1); (98, 1)]); (1, 0, [(769, 0)])]] /\
+  match run_draws (mkCfg true false false false [(0, default_spec); (0, default_spec)]) (init_scr false) (new_term 2 1)
+          [([[(0, 0, [(89, 1)]); (1, 0, [(769, 0)]); (0, 0, [(32, 1)])]], None);
+           ([[(0, 0, [(97, 1); (98, 1)]); (1, 0, [(769, 0)])]], None)] with
+  | Some (_, t) => map (fun x => (c_cp x, c_comb x)) (get_row (t_grid t) 0) = [(97, []); (98, [769])]
+  | None => False
+  end.
+Proof.
+  split; [|split; [|vm_compute; reflexivity]];
+    unfold canvas_any, row_any, run_any, chr_ok; cbn;
+    repeat first [apply Forall_nil | apply Forall_cons | split | discriminate | reflexivity | lia | exact I
+                 | (left; reflexivity) | (right; split; [reflexivity|]; first [left; reflexivity | right; reflexivity])].
 Qed.
